@@ -31,6 +31,7 @@ func main() {
 			"D inserts only ordinary comments (#, //, /* */, /** **/ whose text cannot be read as an annotation) and whitespace: every single gap between two tokens decorated alone with each style (small programs, exhaustive per program), random multi-gap decorations, " +
 			"whitespace-only layouts (none where the lexer needs none, tabs, CRLF, blank lines). Lint half: multisets of (rule, severity, message with digits masked, declaration, statement ordinal, token offset) must be equal. " +
 			"Simulator half: the sequence of log lines, the per-statement snapshots of every pooled variable (debugger snapshot monitor) and the reported error must be equal. " +
+			"Second hand-written family: ordinary comments / blank lines above, below and around a scope annotation (full VCL and statement-only snippet files, three comment markers, multi-line block comments); one comment at every gap of function-call statements with identifier arguments (header.set/unset/filter/filter_except, std.collect, call with arguments, table/ACL arguments) served through ServeHTTP; comments, blank lines, CRLF and a missing final line break at the top and bottom of a module included in a subroutine and at the root (simulator and linter); twelve #FASTLY macro look-alikes with a scoped snippet in the context. " +
 			"non-trivial = a pair whose decoration changed the token stream seen by the parser (>=1 comment or different line structure) and whose P has >=1 diagnostic (lint) or executes >=3 statements (sim); distinct by text of D(P)",
 		Assumptions: []string{
 			"a decorated variant that no longer parses is a violation when every inserted comment sits at a placeholder docs/parser.md documents (or only whitespace changed); at other gaps it is outside the property and only counted",
@@ -47,6 +48,7 @@ func main() {
 func genCases(g *fw.GenCtx) {
 	for k := 0; k < g.Pick(2, 20); k++ {
 		g.Emit("hand", ccase{Seed: g.Rand.Int63()})
+		g.Emit("hand2", ccase{Seed: g.Rand.Int63()})
 	}
 	// flow half: 16 slices of the token boundaries of each whole program (quick: every 3rd boundary)
 	for pi := 0; pi < 1; pi++ {
@@ -376,6 +378,10 @@ func run(c fw.Case) fw.Outcome {
 	json.Unmarshal(c.Data, &cc)
 	if c.Kind == "hand" {
 		runHand(&oc, cc)
+		return oc
+	}
+	if c.Kind == "hand2" {
+		runHand2(&oc, cc)
 		return oc
 	}
 	if c.Kind == "flow" {
